@@ -186,6 +186,12 @@ func (ph *ptraceHandle) handle(pid int, wstatus unix.WaitStatus) (status runner.
 			ph.traced[pid] = true
 			// Ptrace set option valid if the tracee is stopped
 			if err := setPtraceOption(pid); err != nil {
+				// the tracee was killed while stopped (e.g. exit_group of
+				// another thread): its death will be reported by wait4
+				if err == unix.ESRCH {
+					delete(ph.traced, pid)
+					return
+				}
 				status = runner.StatusRunnerError
 				errStr = err.Error()
 				return
@@ -267,6 +273,10 @@ func (ph *ptraceHandle) handleTrap(pid int) error {
 	if ph.Handler != nil {
 		ctx, err := getTrapContext(pid)
 		if err != nil {
+			// the tracee was killed while stopped, nothing to decide
+			if err == unix.ESRCH {
+				return nil
+			}
 			return err
 		}
 		act := ph.Handler.Handle(ctx)
@@ -275,7 +285,10 @@ func (ph *ptraceHandle) handleTrap(pid int) error {
 		case TraceBan:
 			// Set the syscallno to -1 and return value into register to skip syscall.
 			// https://www.kernel.org/doc/Documentation/prctl/pkg/seccomp_filter.txt
-			return ctx.skipSyscall()
+			if err := ctx.skipSyscall(); err != nil && err != unix.ESRCH {
+				return err
+			}
+			return nil
 
 		case TraceKill:
 			return runner.StatusDisallowedSyscall
